@@ -582,14 +582,12 @@ def corpus():
 
     for op in ("fold", "fold_no_replay"):
         for pers in ("tick", "static"):
-            for fn in ("sum", "push"):
-                def b(p, op=op, pers=pers, fn=fn):
-                    s = p.src()
-                    f = p.fold(p.map(s, "inc"), fn, pers, op=op)
-                    if fn == "push":
-                        f = p.flatten(f)
-                    p.sink(f)
-                add("%s_%s_%s" % (op, pers, fn), "C21", b)
+            def b(p, op=op, pers=pers):
+                s = p.map(p.src(), "inc")
+                p.sink(p.fold(s, "sum", pers, op=op))
+                p.sink(p.flatten(p.fold(s, "push", pers, op=op)))
+                p.sink(p.fold(p.map(s, "key_mod2"), "sum_snd", pers, op=op))
+            add("%s_%s" % (op, pers), "C21", b)
     for op in ("reduce", "reduce_no_replay"):
         for pers in ("tick", "static"):
             def b(p, op=op, pers=pers):
@@ -605,27 +603,31 @@ def corpus():
             add("%s_%s" % (op, pers), "C21", b)
     for op in ("join", "join_multiset"):
         for pl in ("tick", "static"):
-            for pr in ("tick", "static"):
-                def b(p, op=op, pl=pl, pr=pr):
-                    a = p.map(p.src(), "key_mod2")
-                    c = p.map(p.src(), "key_mod3")
-                    p.sink(p.join(a, c, (pl, pr), op=op))
-                add("%s_%s_%s" % (op, pl, pr), "C21", b)
+            def b(p, op=op, pl=pl):
+                a = p.map(p.src(), "key_mod2")
+                c = p.map(p.src(), "key_mod3")
+                p.sink(p.join(a, c, (pl, "tick"), op=op))
+                p.sink(p.join(a, c, (pl, "static"), op=op))
+            add("%s_%s_x" % (op, pl), "C21", b)
     for op in ("cross_join", "cross_join_multiset"):
-        for pl, pr in (("tick", "tick"), ("static", "tick"), ("static", "static")):
-            def b(p, op=op, pl=pl, pr=pr):
-                p.sink(p.cross_join(p.src(), p.src(), (pl, pr), op=op))
-            add("%s_%s_%s" % (op, pl, pr), "C21", b)
+        def b(p, op=op):
+            a, c = p.src(), p.src()
+            for pl, pr in (("tick", "tick"), ("static", "tick"), ("tick", "static"), ("static", "static")):
+                p.sink(p.cross_join(a, c, (pl, pr), op=op))
+        add("%s_x" % op, "C21", b)
     for pl in ("tick", "static"):
-        for pr in ("tick", "static"):
-            def b(p, pl=pl, pr=pr):
-                pos = p.map(p.src(), "key_mod3")
-                p.sink(p.anti_join(pos, p.src(), (pl, pr)))
-            add("anti_join_%s_%s" % (pl, pr), "C21", b)
+        def b(p, pl=pl):
+            pos = p.map(p.src(), "key_mod3")
+            neg = p.src()
+            p.sink(p.anti_join(pos, neg, (pl, "tick")))
+            p.sink(p.anti_join(pos, neg, (pl, "static")))
+        add("anti_join_%s_x" % pl, "C21", b)
 
-            def b2(p, pl=pl, pr=pr):
-                p.sink(p.difference(p.src(), p.src(), (pl, pr)))
-            add("difference_%s_%s" % (pl, pr), "C21", b2)
+        def b2(p, pl=pl):
+            a, c = p.src(), p.src()
+            p.sink(p.difference(a, c, (pl, "tick")))
+            p.sink(p.difference(a, c, (pl, "static")))
+        add("difference_%s_x" % pl, "C21", b2)
     for pers in ("tick", "static"):
         def b(p, pers=pers):
             p.sink(p.unique(p.src(), pers))
@@ -699,6 +701,30 @@ def corpus():
         p.sink(u)
         p.sink(p.simple(p.simple(a, "inspect"), "identity"))
     add("union_tee", "C21", b)
+
+    # --- every accumulating / stateful unary operator directly behind a tee (push side) and,
+    #     in the same program, directly in front of a union (pull side)
+    def side(name, fs):
+        def b(p):
+            s = p.src()
+            p.sink(s)                                   # second consumer -> tee -> push side
+            z = p.src()
+            for f in fs:
+                p.sink(f(p, s))
+                p.sink(p.union(f(p, z), p.map(z, "inc")))     # in front of a union -> pull side
+        add("sides_" + name, "C21", b)
+    TS = ("tick", "static")
+    side("fold", [lambda p, s, pers=pers: p.fold(s, "sum", pers) for pers in TS])
+    side("fold_no_replay", [lambda p, s, pers=pers: p.fold(s, "sum", pers, op="fold_no_replay") for pers in TS])
+    side("reduce", [lambda p, s, pers=pers: p.reduce(s, "sum", pers) for pers in TS])
+    side("reduce_no_replay", [lambda p, s, pers=pers: p.reduce(s, "sum", pers, op="reduce_no_replay") for pers in TS])
+    side("fold_keyed", [lambda p, s, pers=pers: p.map(p.fold_keyed(p.map(s, "key_mod2"), "sum", pers), "sum_pair") for pers in TS])
+    side("reduce_keyed", [lambda p, s, pers=pers: p.map(p.reduce_keyed(p.map(s, "key_mod2"), "max", pers), "sum_pair") for pers in TS])
+    side("unique", [lambda p, s, pers=pers: p.unique(s, pers) for pers in TS])
+    side("enumerate", [lambda p, s, pers=pers: p.map(p.enumerate(s, pers), "sum_pair") for pers in TS])
+    side("scan", [lambda p, s, pers=pers: p.scan(s, "running_sum", pers) for pers in TS])
+    side("persist_sort", [lambda p, s: p.persist(s), lambda p, s: p.sort(s), lambda p, s: p.sort_by_key(s, "id")])
+    side("flat_filter", [lambda p, s: p.filter_map(p.flat_map(p.filter(s, "gt1"), "dup"), "half_even")])
 
     # --- C24: ticks, defer_tick, defer_tick_lazy, run_available
     def b(p):
@@ -950,7 +976,7 @@ def loops_corpus():
         p.loop_begin()
         rd = p.simple(p.window(t), "identity")
         p.loop_begin()
-        u = cycle(p, p.window(rd), step="dbl", cond="lt6")
+        u = cycle(p, p.window(rd), step="inc", cond="lt3")
         p.sink(p.fold(u, "count", "tick"))      # 'tick state spans the iterations of one tick
         p.loop_end()
         ai = p.unwindow(u)
@@ -968,7 +994,9 @@ def loops_corpus():
         d = p.defer("i", ordered=False)
         reach = p.unique(p.union(p.window(sb), d), "tick")
         j = p.join(p.map(reach, "pair_self"), p.window(eb, "batch_lazy"), ("tick", "tick"))
-        p.defer_bind(d, p.map(j, "join_right"))
+        # the join re-emits everything every iteration ('tick state spans the iterations): only
+        # never-seen destinations may go round again, otherwise the loop never ends
+        p.defer_bind(d, p.unique(p.map(j, "join_right"), "tick"))
         p.loop_end()
         p.sink(p.sort(p.unwindow(reach)))
         p.loop_end()
@@ -999,7 +1027,7 @@ def loops_corpus():
         p.loop_begin()
         a = p.simple(p.window(t), "identity")
         p.loop_begin()
-        m = cycle(p, p.window(a), step="dbl", cond="lt3")
+        m = cycle(p, p.window(a), step="inc", cond="lt3")
         mi = p.simple(m, "identity")
         p.loop_begin()
         inner = cycle(p, p.window(mi), step="inc", cond="lt6")
@@ -1495,22 +1523,27 @@ def history(rng, p, nsteps, avail_rate):
 
 # ---------------------------------------------------------------------------------------------
 def build_all(seed, tier):
-    rng = random.Random(seed * 7919 + (1 if tier == "thorough" else 0))
+    # the PROGRAM set depends on the seed only (one generated crate per seed: no rebuild when the
+    # tier changes); the tier decides how many / how long the input histories are
+    rng = random.Random(seed * 7919)
+    hr = random.Random(seed * 104729 + (1 if tier == "thorough" else 0))
+    NH = 6 if tier == "thorough" else 2
+    HL = (4, 10) if tier == "thorough" else (3, 7)
     progs = []      # entries: dict(id, name, prop, base, variant, prog, deco)
     hists = {}
 
-    def register(p, variant="", deco=None, base=None):
+    def register(p, variant="", deco=None, base=None, shuffle=None):
         pid = len(progs) + 1
         progs.append({"id": pid, "name": p.name + ("__" + variant if variant else ""), "prop": p.prop,
-                      "base": base or pid, "variant": variant, "prog": p, "deco": deco})
+                      "base": base or pid, "variant": variant, "prog": p, "deco": deco, "shuffle": shuffle})
         return pid
 
-    nrand = {"quick": dict(c21=14, c22=9, c23=10, c24=6), "thorough": dict(c21=40, c22=24, c23=24, c24=16)}[tier]
+    nrand = dict(c21=6, c22=8, c23=7, c24=5)
 
     base = corpus() + refs_corpus() + loops_corpus()
     for p in base:
         pid = register(p)
-        hists[pid] = [history(rng, p, rng.randrange(3, 7), 0.3 if p.prop in ("C24", "C26") else 0.15) for _ in range(2)]
+        hists[pid] = [history(hr, p, hr.randrange(*HL), 0.3 if p.prop in ("C24", "C26") else 0.15) for _ in range(NH)]
     for p in calibration():
         pid = register(p)
         hists[pid] = p.expect
@@ -1518,7 +1551,7 @@ def build_all(seed, tier):
     for i in range(nrand["c21"]):
         p = random_prog(rng, "rand%02d" % i, "C21", rng.randrange(3, 8))
         pid = register(p)
-        hists[pid] = [history(rng, p, rng.randrange(3, 7), 0.15) for _ in range(2)]
+        hists[pid] = [history(hr, p, hr.randrange(*HL), 0.15) for _ in range(NH)]
     # C23: blocking operators behind deep same-tick pipelines
     for i in range(nrand["c23"]):
         p = random_prog(rng, "deep%02d" % i, "C23", rng.randrange(6, 11), want=BLOCKING_OPS)
@@ -1534,12 +1567,12 @@ def build_all(seed, tier):
                 if ks:
                     d[e] = ks
         pid = register(p, deco=d)
-        hists[pid] = [history(rng, p, rng.randrange(3, 6), 0.1) for _ in range(2)]
+        hists[pid] = [history(hr, p, hr.randrange(*HL), 0.1) for _ in range(NH)]
     # C24: defer chains + stateful operators
     for i in range(nrand["c24"]):
         p = random_prog(rng, "tick%02d" % i, "C24", rng.randrange(4, 8), want=["defer_tick", "defer_tick_lazy"])
         pid = register(p)
-        hists[pid] = [history(rng, p, rng.randrange(3, 7), 0.5) for _ in range(2)]
+        hists[pid] = [history(hr, p, hr.randrange(*HL), 0.5) for _ in range(NH)]
     # C22: variants of hand-written and random bases, validated against the base's description
     cands = [e for e in progs if e["prop"] == "C21" and not e["variant"]]
     rng.shuffle(cands)
@@ -1549,16 +1582,35 @@ def build_all(seed, tier):
             break
         vs = variants(e["prog"], rng)
         rng.shuffle(vs)
-        for (vn, d) in vs[:2 if tier == "quick" else 4]:
+        for (vn, d) in vs[:2]:
             q = e["prog"]
             pid = register(q, variant=vn, deco=d, base=e["id"])
             progs[-1]["prop"] = "C22"
             hists[pid] = hists[e["id"]]
         nvar += 1
+    # C25 / C26: statement order is irrelevant (ordering comes from the partitioner), and loops /
+    # reference programs also get split variants (identity / map(id) / handoff inside one context)
+    for e in [e for e in progs if e["prop"] in ("C25", "C26") and not e["variant"]]:
+        r = rng.random()
+        if r < 0.45:
+            continue
+        if r < 0.8:
+            pid = register(e["prog"], variant="shuffle", base=e["id"], shuffle=rng.randrange(1 << 30))
+            hists[pid] = hists[e["id"]]
+        else:
+            d = {}
+            for ed in edges(e["prog"]):
+                if rng.random() < 0.5:
+                    k = rng.choice(["identity", "map_id"])
+                    if deco_ok(e["prog"], ed, k):
+                        d[ed] = [k]
+            if d:
+                pid = register(e["prog"], variant="split", deco=d, base=e["id"])
+                hists[pid] = hists[e["id"]]
     return progs, hists
 
 
-HEADER = """// GENERATED by tools/gen_dfir_progs.py -- do not edit. seed=%d tier=%s
+HEADER = """// GENERATED by tools/gen_dfir_progs.py -- do not edit. seed=%d
 use dfir_rs::dfir_syntax;
 use hv_common::{Trace, Value};
 
@@ -1588,19 +1640,20 @@ def main():
             i += 1
     os.makedirs(outdir, exist_ok=True)
     progs, hists = build_all(seed, tier)
-    src = [HEADER % (seed, tier)]
+    src = [HEADER % seed]
     table = []
     meta = []
     for e in progs:
         fname = "p%03d" % e["id"]
         src.append("// %s [%s]%s" % (e["name"], e["prop"], " variant of p%03d" % e["base"] if e["variant"] else ""))
-        src.append(e["prog"].rust_fn(fname, e["deco"]))
+        sh = (lambda: random.Random(e["shuffle"])) if e["shuffle"] is not None else (lambda: None)
+        src.append(e["prog"].rust_fn(fname, e["deco"], sh()))
         src.append("")
         table.append("        %d => %s(steps, out)," % (e["id"], fname))
         meta.append({"id": e["id"], "name": e["name"], "prop": e["prop"], "base": e["base"],
                      "variant": e["variant"], "desc": e["prog"].desc(), "tags": sorted(e["prog"].tags),
                      "avail_ok": e["prog"].avail_term, "calibration": e["prog"].expect is not None,
-                     "text": e["prog"].rust_body(e["deco"])})
+                     "text": e["prog"].rust_body(e["deco"], sh())})
     src.append("pub fn run(id: u32, steps: &Value, out: &mut Trace) -> bool {")
     src.append("    match id {")
     src.extend(table)
